@@ -101,8 +101,11 @@ def main(ck, tier, w):
                 txs.append({'ver': 1, 'ins': [{'txid': r0.randbytes(32), 'idx': 1, 'sig': huge[h % len(huge)], 'seq': 5, 'wit': [huge[(h + 1) % len(huge)]]}],
                             'outs': [{'val': 100 + n, 'spk': x} for n, x in enumerate(huge)] + [{'val': 5, 'spk': btc.p2pkh(r0.randbytes(20))}], 'lock': h})
             elif h >= 1 and k == -2:
-                txs.append({'ver': 1, 'ins': [{'txid': r0.randbytes(32), 'idx': 1, 'sig': b'\x01\x01', 'seq': 5}],
+                # (witness stacks whose item count needs a 3-byte CompactSize, followed by further transactions in the block)
+                txs.append({'ver': 1, 'ins': [{'txid': r0.randbytes(32), 'idx': 1, 'sig': b'\x01\x01', 'seq': 5, 'wit': [b'\x01'] * [253, 300, 70000][h % 3]},
+                                              {'txid': r0.randbytes(32), 'idx': 2, 'sig': b'', 'seq': 6, 'wit': [r0.randbytes(h)] * 252}],
                             'outs': [{'val': 100 + n, 'spk': x} for n, x in enumerate(looks[h - 1::3])] + [{'val': 5, 'spk': btc.p2pkh(r0.randbytes(20))}], 'lock': h})
+                txs.append({'ver': 1, 'ins': [{'txid': r0.randbytes(32), 'idx': 3, 'sig': b'', 'seq': 7}], 'outs': [{'val': 6, 'spk': btc.p2pkh(r0.randbytes(20))}], 'lock': h})
             elif h >= 1 and k == -1:
                 txs.append({'ver': 1, 'ins': [{'txid': r0.randbytes(32), 'idx': 1, 'sig': b'\x01\x01', 'seq': 5}],
                             'outs': [{'val': n, 'spk': x} for n, x in enumerate(
